@@ -48,6 +48,24 @@ const ttmlSmall = `<?xml version="1.0" encoding="UTF-8"?>
 </tt>
 `
 
+// ttmlChain: an inheritance chain that only a region's style reaches (base <- mid <- region r <- cue), next to a
+// style nothing reaches.
+const ttmlChain = `<tt xmlns="http://www.w3.org/ns/ttml" xmlns:tts="http://www.w3.org/ns/ttml#styling">
+ <head>
+  <styling>
+   <style xml:id="base" tts:color="white"/>
+   <style xml:id="mid" style="base" tts:textAlign="center"/>
+   <style xml:id="unused" tts:color="red"/>
+  </styling>
+  <layout><region xml:id="r" style="mid" tts:origin="10% 80%"/></layout>
+ </head>
+ <body><div>
+  <p begin="1s" end="2s" region="r">one</p>
+  <p begin="3s" end="4s">two</p>
+ </div></body>
+</tt>
+`
+
 // ttmlRate: a TTML document whose root carries the given frame rate (metadata inherited by other writers) and
 // that uses frame-based and tick-based time expressions.
 func ttmlRate(fr int, tick int) string {
@@ -207,6 +225,7 @@ func Small() []Doc {
 		{"ttml-framerate-24", "ttml", []byte(ttmlRate(24, 0)), true},
 		{"ttml-framerate-30", "ttml", []byte(ttmlRate(30, 0)), true},
 		{"ttml-framerate-50-ticks", "ttml", []byte(ttmlRate(50, 90000)), true},
+		{"ttml-region-style-chain", "ttml", []byte(ttmlChain), true},
 		{"ttml-invalid", "ttml", []byte("<tt><body><div><p begin=\"1s\" end=\"2s\">x</p></div></body>"), false},
 		{"stl-open-25-2", "stl", writeSTL("0", 25, 2), true},
 		{"stl-open-30-1", "stl", writeSTL("0", 30, 1), true},
